@@ -180,6 +180,13 @@ func checkC09(x *X, c *Case, strict bool) *Outcome {
 	if ex := knownExclusion(x, ref, strict); ex != "" {
 		return &Outcome{Excluded: ex}
 	}
+	if !strict && x.KF["KF-C15-ICLOWER"] && icLitFoldsIntoTable(x) {
+		// the optimizer's face of KF-C15-ICLOWER: with -optimize-basic-latin on both sides, a
+		// one-rune ignore-case literal whose rune lies behind Basic Latin while its lower case
+		// lies in it ( "\u212a"i ) is a literal on one side and, folded into a class with its
+		// neighbours, a member the lookup table does not know on the other
+		return &Outcome{Excluded: "KF-C15-ICLOWER"}
+	}
 	if !strict && x.KF["KF-C09-INLINESCOPE"] && g.InlineLabelClash() {
 		// the run-time face of KF-C04-OPTSCOPE (see Grammar.InlineLabelClash)
 		return &Outcome{Excluded: "KF-C09-INLINESCOPE"}
@@ -384,4 +391,38 @@ func has(flags []string, f string) bool {
 		}
 	}
 	return false
+}
+
+// icLitFoldsIntoTable: some package of the group was generated with -optimize-basic-latin and
+// the grammar holds, as an alternative of a choice, a one-rune ignore-case literal r >= U+0080
+// with unicode.ToLower(r) < U+0080.
+func icLitFoldsIntoTable(x *X) bool {
+	latin := false
+	for _, p := range x.G.Pkgs {
+		latin = latin || has(p.Flags, "-optimize-basic-latin")
+	}
+	if !latin {
+		return false
+	}
+	found := false
+	qual := func(a *gspec.Expr) bool {
+		if a.K != gspec.KLit || !a.IC {
+			return false
+		}
+		rs := []rune(string(a.Val))
+		return len(rs) == 1 && rs[0] >= 0x80 && unicode.ToLower(rs[0]) < 0x80
+	}
+	for _, r := range x.G.Spec.Rules {
+		// (a rule that is such a literal is inlined wherever it is referred to)
+		found = found || qual(r.Expr)
+		gspec.Walk(r.Expr, func(e *gspec.Expr) {
+			if e.K != gspec.KChoice {
+				return
+			}
+			for _, a := range e.Sub {
+				found = found || qual(a)
+			}
+		})
+	}
+	return found
 }
